@@ -16,6 +16,7 @@ type cgen struct {
 	crlf     bool
 	maxDepth int
 	rich     bool // full menus of spelling choices (thorough tier); otherwise reduced menus
+	nlists   int  // lists generated so far (extra indentation after a list would be a continuation)
 }
 
 func (g *cgen) take() bool {
@@ -328,6 +329,32 @@ func splitLines(md []byte) [][]byte {
 	return append(lines, md[start:])
 }
 
+// flexMark starts a line on which up to three columns of additional leading
+// indentation do not change the meaning (paragraph text, ATX headings, setext
+// content and underlines, thematic breaks, reference definitions - all emitted
+// with no indentation of their own). Containers use it to choose equivalent
+// spellings of their prefixes; it is removed before the document is assembled.
+const flexMark = 0x01
+
+func flex(l []byte) []byte { return append([]byte{flexMark}, l...) }
+
+func flexAll(ls [][]byte) [][]byte {
+	out := make([][]byte, len(ls))
+	for i, l := range ls {
+		out[i] = flex(l)
+	}
+	return out
+}
+
+func isFlex(l []byte) bool { return len(l) > 0 && l[0] == flexMark }
+
+func unflex(l []byte) []byte {
+	if isFlex(l) {
+		return l[1:]
+	}
+	return l
+}
+
 // block generates one block: its source lines (without line endings) and its HTML.
 // prevKind is the kind of the preceding sibling (-1 if none); tightPara: paragraph
 // inside a tight list item (no <p>).
@@ -357,7 +384,7 @@ func (g *cgen) block(depth int, prevKind int, tightPara bool) (lines [][]byte, h
 	switch k {
 	case bPara:
 		md, h := g.inlines(0, true, false)
-		lines = splitLines(md)
+		lines = flexAll(splitLines(md))
 		if tightPara {
 			html = h
 		} else {
@@ -374,22 +401,24 @@ func (g *cgen) block(depth int, prevKind int, tightPara bool) (lines [][]byte, h
 		if !g.fmtSafe && g.rich && nondetBool() {
 			l = append(l, " ##"...)
 		}
-		lines = [][]byte{l}
+		lines = [][]byte{flex(l)}
 		tag := []byte{'h', byte('0' + lvl)}
 		html = append(append(append(append(html, '<'), tag...), '>'), h...)
 		html = append(append(append(html, "</"...), tag...), '>')
 	case bSetext:
 		lvl := 1 + g.pick(2)
 		md, h := g.inlines(0, !g.fmtSafe, false)
-		lines = splitLines(md)
+		lines = flexAll(splitLines(md))
 		ul := "==="
 		if lvl == 2 {
 			ul = "---"
 		}
 		if !g.fmtSafe && g.rich && nondetBool() {
 			ul = " " + ul + "="[:2-lvl] + "-"[:lvl-1]
+			lines = append(lines, []byte(ul))
+		} else {
+			lines = append(lines, flex([]byte(ul)))
 		}
-		lines = append(lines, []byte(ul))
 		tag := []byte{'h', byte('0' + lvl)}
 		html = append(append(append(append(html, '<'), tag...), '>'), h...)
 		html = append(append(append(html, "</"...), tag...), '>')
@@ -400,9 +429,9 @@ func (g *cgen) block(depth int, prevKind int, tightPara bool) (lines [][]byte, h
 			n = 3 // "---" under a paragraph would be a setext underline
 		}
 		if g.fmtSafe {
-			lines = [][]byte{[]byte("***")}
+			lines = [][]byte{flex([]byte("***"))}
 		} else {
-			lines = [][]byte{[]byte(hrs[g.pick(n)])}
+			lines = [][]byte{flex([]byte(hrs[g.pick(n)]))}
 		}
 		html = append(html, "<hr>"...)
 	case bFenced:
@@ -433,6 +462,7 @@ func (g *cgen) block(depth int, prevKind int, tightPara bool) (lines [][]byte, h
 		assume(c0 != ch) // cannot start a closing fence
 		assume(vand(c0 != ' ', c0 != '\t'))
 		assume(c0 != 0)
+		assume(c0 != flexMark) // reserved by the serialiser (H_C06_verbatim covers every content byte)
 		lines = append(lines, []byte{c0, c1})
 		html = escText(html, c0)
 		html = escText(html, c1)
@@ -444,22 +474,46 @@ func (g *cgen) block(depth int, prevKind int, tightPara bool) (lines [][]byte, h
 		assume(classOK(c0, 'X'))
 		assume(vand(c0 != ' ', c0 != '\t'))
 		assume(c0 != 0)
+		assume(c0 != flexMark) // reserved by the serialiser (H_C06_verbatim covers every content byte)
 		lines = [][]byte{{' ', ' ', ' ', ' ', c0, c1}}
 		html = append(html, "<pre><code>"...)
 		html = escText(html, c0)
 		html = escText(html, c1)
 		html = append(html, "\n</code></pre>"...)
 	case bQuote:
+		listsBefore := g.nlists
 		inner, h := g.blocks(depth+1, 2)
+		// spelling of the marker on lines where extra indentation is insignificant
+		// (one choice per quote): "> "; ">" + TAB (the tab supplies the optional space
+		// plus at most three columns) followed at depth 0 by one more space; ">" + TAB;
+		// ">" with no space.
+		qv := 0
+		if !g.fmtSafe {
+			qv = g.pick(g.menu(4, 2))
+			if g.nlists != listsBefore && (qv == 1 || qv == 2) {
+				// a block following a list must not gain indentation (it would continue the item)
+				qv = 0
+			}
+		}
 		for _, l := range inner {
-			if len(l) == 0 {
+			switch {
+			case len(l) == 0:
 				lines = append(lines, []byte(">"))
-			} else {
-				lines = append(lines, append([]byte("> "), l...))
+			case isFlex(l) && qv == 1 && depth == 0:
+				// column 0: the tab spans columns 1-3; with the extra space the content
+				// has exactly three columns of indentation after the marker's own space
+				lines = append(lines, append([]byte(">\t "), unflex(l)...))
+			case isFlex(l) && (qv == 1 || qv == 2):
+				lines = append(lines, append([]byte(">\t"), unflex(l)...))
+			case isFlex(l) && qv == 3:
+				lines = append(lines, append([]byte(">"), unflex(l)...))
+			default:
+				lines = append(lines, append([]byte("> "), unflex(l)...))
 			}
 		}
 		html = append(append(append(html, "<blockquote>"...), h...), "</blockquote>"...)
 	case bBullet, bOrdered:
+		g.nlists++
 		tight := nondetBool()
 		nitems := 1
 		if g.budget >= 2 {
@@ -518,13 +572,14 @@ func (g *cgen) block(depth int, prevKind int, tightPara bool) (lines [][]byte, h
 				md, ph := g.inlines(0, true, false)
 				inner, h = splitLines(md), ph
 			} else {
-				inner, h = g.blocks(depth+1, 1)
+				inner, h = g.blocks(depth+1, 2)
 				// loose list: the first child must not be an indented code block (content column)
 			}
 			if it > 0 && !tight {
 				lines = append(lines, nil)
 			}
 			for li, l := range inner {
+				l = unflex(l)
 				switch {
 				case li == 0:
 					lines = append(lines, append(append([]byte(nil), first...), l...))
@@ -595,8 +650,18 @@ func (g *cgen) document(maxTop int) (doc, html []byte) {
 	if g.crlf {
 		eol = "\r\n"
 	}
+	// flexible top-level lines may carry up to three leading spaces (one choice per document)
+	ind := 0
+	if !g.fmtSafe && g.nlists == 0 {
+		ind = g.pick(g.menu(4, 1))
+	}
 	for _, l := range lines {
-		doc = append(doc, l...)
+		if isFlex(l) {
+			for i := 0; i < ind; i++ {
+				doc = append(doc, ' ')
+			}
+		}
+		doc = append(doc, unflex(l)...)
 		doc = append(doc, eol...)
 	}
 	return doc, html
